@@ -398,13 +398,14 @@ def gen_C14(tier, seed):
     progs += rewidth_programs('C14', rng)
     # a decorated function that raised (or returned) earlier in the process: an ordinary file with names only the normal mode
     # accepts is still written, as in a fresh process
-    for i in range(3):
+    for i in range(6):
         p = Prog(f'C14-afterdecorated-{i}', {'kind': 'afterdecorated'})
         for fid in (1, 101):
             if fid == 101:
                 p.next_proc(fresh=True)
             if fid == 1:
-                p.steps.append({'op': 'hc_decorated', 'steps': [], 'raise_inside': i != 2})
+                # i >= 3: the decorated function calls itself (re-entered while running), 2 or 3 levels deep
+                p.steps.append({'op': 'hc_decorated', 'steps': [], 'raise_inside': i not in (2, 4), 'depth': 1 if i < 3 else i - 1 if i < 5 else 3})
                 if i == 1:
                     p.steps.append({'op': 'hc_decorated', 'steps': [], 'raise_inside': False})
             p.file(fid, vrl=256, setid='lower case set identifier')
@@ -413,6 +414,30 @@ def gen_C14(tier, seed):
             c = p.channel(lf, 'channel name', data=np.arange(3, dtype='int16'), units=S('furlongs'))
             p.frame(lf, 'frame name', [c])
             p.write(fid, fname='after.dlis' if fid == 1 else 'fresh.dlis')
+        progs.append(p.build())
+    # the same source path (HDF5 file, replaced in between) or the same dict / array objects (contents replaced) used for two
+    # writes with different data, by one DLISFile or by two: the second file holds the second data, as in a fresh process
+    for i in range(8):
+        route = ['h5', 'h5', 'dict', 'struct'][i % 4]
+        p = Prog(f'C14-sourcetwice-{i}', {'kind': 'sourcetwice', 'route': route})
+        first = np.array([1000.0, 1000.5, 1001.0, 1001.5])
+        second = np.array([2000.0, 2000.5, 2001.0, 2001.5, 2002.0])[:4 if i % 2 else 5]
+        for fid in (1, 101):
+            if fid == 101:
+                p.next_proc(fresh=True)
+            two_files = i >= 4 and fid == 1
+            for sub in ((0, 1) if two_files else (0,)):
+                f = fid + sub
+                p.file(f, vrl=512)
+                lf = p.lf(f, lf=f, fh_id='SOURCE-TWICE')
+                p.origin(lf, name='O')
+                d = p.channel(lf, 'DEPTH')
+                g = p.channel(lf, 'GR')
+                p.frame(lf, 'FR', [d, g], index_type=EN('FrameIndexType', 'BOREHOLE_DEPTH'))
+                if fid == 1 and sub == 0:
+                    p.write(f, route=route, data_arrays={d: p.array(first), g: p.array(first * 2)}, fname='w1.dlis')
+                if fid == 101 or sub == (1 if two_files else 0):
+                    p.write(f, route=route, data_arrays={d: p.array(second), g: p.array(second * 3)}, fname=('w2.dlis' if fid == 1 else 'fresh.dlis'))
         progs.append(p.build())
     # the file header (id, sequence number) changed between two writes: the next file is the one of a fresh process
     for i in range(4):
@@ -505,13 +530,13 @@ def gen_C17(tier, seed):
     breaches = ['none', 'objname', 'chname', 'setid', 'hdrid', 'signed', 'noframe', 'twoframes', 'nonuniform', 'nonuniform-spacing',
                 'nonuniform-minmax', 'nonuniform-dec', 'nonuniform-dec-u16', 'nonuniform-jitter', 'units', 'indextype', 'eqtype', 'eqloc',
                 'objname-nl', 'chname-nl', 'setid-nl', 'hdrid-nl', 'objname-tab']
-    patterns = ['inside', 'outside', 'nested', 'after-exc', 'decorator', 'after-exit']
+    patterns = ['inside', 'outside', 'nested', 'after-exc', 'decorator', 'after-exit', 'decorator-rec']
     k = 0
     for b in breaches:
-        for pat in patterns if tier == 'thorough' else ['inside', 'outside', rng.choice(patterns[2:])]:
+        for pat in patterns if tier == 'thorough' or b in ('none', 'chname') else ['inside', 'outside', rng.choice(patterns[2:])]:
             k += 1
             p = Prog(f'C17-{b}-{pat}', {'kind': 'hc', 'breach': b, 'pattern': pat})
-            inside = pat in ('inside', 'nested', 'decorator')
+            inside = pat in ('inside', 'nested', 'decorator', 'decorator-rec')
             if pat == 'inside':
                 p.hc('enter')
             elif pat == 'nested':
@@ -568,8 +593,9 @@ def gen_C17(tier, seed):
             q.write(1, valid=(b == 'none' or not inside),
                     hc_breach=(b if (b in ('signed', 'noframe', 'twoframes', 'nonuniform', 'nonuniform-spacing', 'nonuniform-minmax',
                                            'nonuniform-dec', 'nonuniform-dec-u16', 'nonuniform-jitter') and inside) else ''))
-            if pat == 'decorator':
-                p.steps.append({'op': 'hc_decorated', 'steps': q.steps, 'raise_inside': rng.random() < 0.5})
+            if pat in ('decorator', 'decorator-rec'):
+                p.steps.append({'op': 'hc_decorated', 'steps': q.steps, 'raise_inside': rng.random() < 0.5,
+                                'depth': 1 if pat == 'decorator' else rng.choice([2, 3])})
             else:
                 p.steps.extend(q.steps)
             if pat == 'inside':
@@ -621,6 +647,31 @@ def gen_C17(tier, seed):
                     p.write(1, valid=False, either=True)
                     p.hc('exit')
                 progs.append(p.build())
+    # names given by re-assignment inside the mode (object name, header id, set identifier of the label), then written inside
+    for what in ('objname', 'chname', 'hdrid', 'setid', 'none'):
+        for bad in ('gamma ray', 'GAMMA\n'):
+            p = Prog(f'C17-latename-{what}-{len(bad)}', {'kind': 'hc-latename', 'what': what})
+            p.hc('enter')
+            p.file(1, setid='SET-1')
+            lf = p.lf(1, fh_id='HDR-1')
+            p.origin(lf, name='ORIGIN-1')
+            c = p.channel(lf, 'DEPTH', data=np.arange(4, dtype='float64'))
+            c2 = p.channel(lf, 'GR', data=np.arange(4, dtype='float64'))
+            p.frame(lf, 'FRAME-1', [c, c2])
+            z = p.add(lf, 'zone', 'ZONE-1')
+            if what == 'objname':
+                p.rename(z, bad)
+            elif what == 'chname':
+                p.rename(c2, bad)
+            elif what == 'hdrid':
+                p.set_header(lf, 'header_id', bad)
+            elif what == 'setid':
+                p.set_sul(1, 'set_identifier', bad)
+            else:
+                p.rename(z, 'ZONE-2')
+            p.write(1, valid=(what == 'none'), either=(what != 'none'))
+            p.hc('exit')
+            progs.append(p.build())
     return progs
 
 
